@@ -12,6 +12,6 @@ echo "== demo on /repo (expect 0)"
 (cd /repo && JAX_PLATFORMS=cpu PYTHONPATH=/repo/src timeout 2400 /venv/bin/python $sd/demo.py > /tmp/demo_orig_r2$id.log 2>&1; echo "exit=$?")
 git -C /repo apply $sd/patch.diff || { echo "PATCH DOES NOT APPLY"; exit 1; }
 for p in $prop "$@"; do
-  GINVERIF_NO_EVIDENCE=1 /verif/check $p --tier quick > /tmp/seedcheck_r2${id}_$p.log 2>&1; echo "$p exit=$? $(grep -m1 '^  \|ANALYSIS' /tmp/seedcheck_r2${id}_$p.log | cut -c1-250)"
+  GINVERIF_NO_EVIDENCE=1 GINVERIF_REPLAY_DIR=/tmp/seedreplay /verif/check $p --tier quick > /tmp/seedcheck_r2${id}_$p.log 2>&1; echo "$p exit=$? $(grep -m1 '^  \|ANALYSIS' /tmp/seedcheck_r2${id}_$p.log | cut -c1-250)"
 done
 git -C /repo checkout -- . ; git -C /repo status --short | head -3
